@@ -61,4 +61,17 @@ PROPS = {
         'rule': "one evaluation = one render of a codec template; a cell = (filter and option spelling, input class [empty/alnum/ascii-punct/unicode/long], length mod 3 or 4, accepted/rejected, value kind and depth for json)",
         'must_observe': [],
     },
+    'C15': {
+        'level': 'exploration',
+        'technique': 'law checker over recorded observations of the public Eq/PartialOrd/Ord of tera::Value (all pairs and triples of a value pool) and of template comparisons; key-lookup monitor against an association-list model',
+        'claim': 'The base pool (143 values: every kind, every number in every encoding able to hold it, safe/normal strings, nested and near-equal arrays and maps) is checked '
+                 'exhaustively for reflexivity, symmetry, transitivity of ==, antisymmetry/transitivity/totality of cmp, Equal=>==, ==>Equal, congruence, partial_cmp=>cmp, '
+                 'agreement of == with structural/mathematical equality and of the scalar order with exact arithmetic; random pools repeat this with generated values. '
+                 'Key lookups through 9 access paths are compared with a model keyed by mathematical equality, on maps of 0-16 entries straddling the scan/hash cutoff.',
+        'note': 'the model equality/order is separate code written from the documentation; arrays have no documented order, only the laws are asserted for them; float probes into maps are not generated (undocumented)',
+        'rule': "one evaluation = one pair comparison, one triple law instance or one rendered lookup/comparison; a cell = (pair of value kinds) for the laws, "
+                "(access path, probe key kind, scan/hash size class, present/absent) for lookups, (kinds, ok/err) for template comparisons",
+        'exhaustive': 'all pairs and triples of the base pool; random pools and lookup maps are sampled',
+        'must_observe': ['base_pool_completed', 'lookups', 'triples'],
+    },
 }
